@@ -75,6 +75,8 @@ var c08Hostile = []hostileArg{
 	{strings.Repeat("w ", 1200) + "\r\nQUIT", "long-words-then-CRLF"}, {":lead", "lead-colon"}, {" lead", "lead-space"},
 	{"%s%d%!", "fmtverbs"}, {"%s\r\nQUIT", "fmt+CRLF"}, {strings.Repeat("x", 460) + "\nQUIT :y", "past-split-LF"},
 	{strings.Repeat("x. ", 160) + "\rJOIN #z", "sentences-then-CR"},
+	{strings.Repeat("\x80", 1000), "continuation-bytes-only"}, {strings.Repeat("\xa0", 700) + "\r\nQUIT :x", "latin1-padding-then-CRLF"},
+	{"caf\xe9 \xff\xfe", "not-utf8"},
 }
 
 var c08Benign = []string{"#chan", "nick", "some text here", "word", "+o", "LS"}
